@@ -230,7 +230,12 @@ inductive OpOut
   | thrown                 -- Async::Error surfaced in the code that called resolve/reject/then
   deriving DecidableEq, Repr
 
-def fuelFor (m : M) : Nat := 4 * (m.cores.foldl (fun s c => s + c.reqs.length + 1) 0 + m.stack.length + 4) * (m.cores.length + 2)
+/-- enough steps for any cascade: every request's two counters are spent at most once each, and each such step
+    schedules at most one walk over one request list (quadratic in the number of requests and pending actions;
+    chainers created on the way are bounded by the user requests) -/
+def fuelFor (m : M) : Nat :=
+  let r := m.cores.foldl (fun s c => s + 2 * c.reqs.length + 1) 0 + 2 * m.stack.length + 4
+  4 * r * r
 
 /-- finish the cascade started by an operation; an exception that escaped an internal walk surfaces here -/
 def settleDown (m : M) : M × Bool :=
